@@ -371,6 +371,13 @@ class H2Protocol:
                 _validate_h2_headers(
                     [(name, value) for name, value in event.headers if name[:1] != b":"]
                 )
+                authority = [value for name, value in event.headers if name == b":authority"]
+                for name, value in event.headers:
+                    # (h2 refuses this as well, after the header compression
+                    # has taken the block in - what the client is sent next
+                    # could then not be decoded)
+                    if name.lower() == b"host" and authority and value != authority[0]:
+                        raise ValueError("The host of a push must be that of its :authority")
                 await self._create_server_push(event.stream_id, event.raw_path, event.headers)
         except (
             BufferCompleteError,
